@@ -50,6 +50,11 @@ impl PrimitiveSymmetrySearch {
         let pkdtree = PeriodicKdTree::new(primitive_cell, rough_symprec);
         let bravais_group =
             search_bravais_group(&primitive_cell.lattice, symprec, angle_tolerance)?;
+        #[cfg(feature = "verif")]
+        if crate::verif::trace::detail() {
+            let rs: Vec<String> = bravais_group.iter().map(crate::verif::trace::imat).collect();
+            crate::verif::trace::push(format!("s3.brav {}", rs.join(" ")));
+        }
         let pivot_site_indices = pivot_site_indices(&primitive_cell.numbers);
         let mut symmetries_tmp = vec![];
         let src = pivot_site_indices[0];
@@ -81,6 +86,17 @@ impl PrimitiveSymmetrySearch {
         );
 
         // Purify symmetry operations by permutations
+        #[cfg(feature = "verif")]
+        if crate::verif::trace::detail() {
+            for (r, t, p) in symmetries_tmp.iter() {
+                crate::verif::trace::push(format!(
+                    "s3.cand {} ; {} ; {}",
+                    crate::verif::trace::imat(r),
+                    crate::verif::trace::fvec(t),
+                    crate::verif::trace::perm(p)
+                ));
+            }
+        }
         let mut operations_and_permutations = vec![];
         for (rotation, rough_translation, permutation) in symmetries_tmp.iter() {
             let (translation, distance) = symmetrize_translation_from_permutation(
@@ -89,6 +105,10 @@ impl PrimitiveSymmetrySearch {
                 rotation,
                 rough_translation,
             );
+            #[cfg(feature = "verif")]
+            if crate::verif::trace::detail() {
+                crate::verif::trace::push(format!("s3.dist {} {}", distance.to_bits(), (distance < symprec) as i32));
+            }
             if distance < symprec {
                 operations_and_permutations
                     .push((Operation::new(*rotation, translation), permutation.clone()));
@@ -420,6 +440,16 @@ fn search_bravais_group(
     }
     debug!("Order of Bravais group: {}", complemented_rotations.len());
     Ok(complemented_rotations)
+}
+
+/// Verification hook: the (private) Bravais-group search, callable from the harness.
+#[cfg(feature = "verif")]
+pub fn verif_search_bravais_group(
+    minkowski_lattice: &Lattice,
+    symprec: f64,
+    angle_tolerance: AngleTolerance,
+) -> Result<Rotations, MoyoError> {
+    search_bravais_group(minkowski_lattice, symprec, angle_tolerance)
 }
 
 /// Compare (basis.column(col1), basis.column(col2)) and (b1, b2)
